@@ -25,8 +25,10 @@ func (b *vqBase) Finished()       { *b.fin = append(*b.fin, b.uid) }
 type vqPlain struct{ vqBase }
 
 func (b *vqPlain) Invalidates(o Broadcast) bool {
+	// same group, or: a broadcast of group 6..8 supersedes every queued one of groups 0..5 with the same residue
+	// mod 3 (so that one submission can invalidate several, possibly adjacent, queued broadcasts)
 	if p, ok := o.(*vqPlain); ok {
-		return p.grp == b.grp
+		return p.grp == b.grp || (b.grp >= 6 && p.grp < 6 && p.grp%3 == b.grp%3)
 	}
 	return false
 }
@@ -157,6 +159,12 @@ func vqGen(r *vfRng) vfCase {
 			ln := int64(r.pick([]int{1, 1, 4, 4, 4, 7, 7, 20, 33}))
 			kind := int64(r.n(3))
 			arg := int64(r.n(3))
+			if kind == 0 {
+				arg = int64(r.n(9))
+				if r.chance(70) {
+					arg = int64(r.n(6))
+				}
+			}
 			if kind == 1 {
 				arg = int64(r.n(len(vqNames)))
 			}
